@@ -164,6 +164,8 @@ class State:
         self.user_provided = w["dst_initial"] in ("empty", "content")
         self.user_tree = ({} if w["dst_initial"] == "empty" else dict(USER_CONTENT)) if self.user_provided else None
         self.leftovers = False
+        self.before_paths = set()
+        self.role = lambda p: '?'
         self.before_complete = False
         self.completed = False  # an earlier call returned normally after performing the automatic copy
         self.expected = expected
@@ -180,7 +182,12 @@ def judge(out, st, att, dst, src_before, src_after, history, site):
     res = att["result"]
     tree = snapshot(dst)
     n_mut = att["prims"]
-    rm_below = any(e[0] == "rm" and (e[1] == dst or e[1].startswith(dst + "/")) for e in att["log"])
+    # only the removal of something an EARLIER attempt left behind obliges was_deleted=True (an implementation may
+    # create and remove its own temporary entries); only data / the folder itself count as "redone or touched"
+    pre = st.before_paths
+    rm_below = any(e[0] == "rm" and (e[1] == dst or (e[1].startswith(dst + "/") and e[1][len(dst) + 1:] in pre)) for e in att["log"])
+    role = st.role
+    touched_data = [e for e in att["log"] if any(role(p) in ("data", "dst") for p in e[1].split("->"))]
     was_copied = bool(getattr(res, "was_copied", None))
     was_deleted = bool(getattr(res, "was_deleted", None))
     if st.user_provided:
@@ -188,8 +195,9 @@ def judge(out, st, att, dst, src_before, src_after, history, site):
             out.violate("C20:user-folder-touched", site, f"history={history}: {_tree_diff(tree, st.user_tree)}")
         if was_copied or was_deleted:
             out.violate("C20:untruthful-result", site, f"history={history}: user-provided folder but result={res}")
-        if n_mut:
-            out.violate("C20:user-folder-touched", site, f"history={history}: {n_mut} mutation primitives {att['log'][:4]}")
+        below = [e for e in att["log"] if any(p == dst or p.startswith(dst + "/") for p in e[1].split("->"))]
+        if below:
+            out.violate("C20:user-folder-touched", site, f"history={history}: {len(below)} mutation primitives in the user's folder {below[:4]}")
         return
     # automatic copy
     if tree is None:
@@ -201,9 +209,9 @@ def judge(out, st, att, dst, src_before, src_after, history, site):
         out.violate(cls, site, f"history={history} result={res}: {_tree_diff(data, st.expected)}")
         return
     if st.completed:
-        if n_mut:
+        if touched_data:
             out.violate("C20:completed-copy-redone-or-touched", site,
-                        f"history={history}: {n_mut} mutation primitives after a completed copy: {att['log'][:4]}")
+                        f"history={history}: {len(touched_data)} mutation primitives on the data of a completed copy: {touched_data[:4]}")
         if was_copied or was_deleted:
             out.violate("C20:untruthful-result", site, f"history={history}: copy was already complete but result={res}")
     else:
@@ -380,6 +388,8 @@ class Spec(core.PropSpec):
             before_exists = os.path.exists(dst)
             st.leftovers = before_exists and not st.completed and not st.user_provided
             bt = snapshot(dst) if before_exists else None
+            st.before_paths = set(bt or {})
+            st.role = role
             st.before_complete = bt is not None and {k: v for k, v in bt.items() if not ("/" not in k and v is not None and k not in expected)} == expected
             att = m.attempt(fn, fault, list_seed=f"{ls}/{counter[0]}", sched_seed=f"{ss}/{counter[0]}", classify=role)
             fired = att["fired"]
